@@ -162,6 +162,29 @@ def _index(case, ctx, g):
     B = cf @ cf.T + torch.diag(var)
     ctx.close("index_kernel", ik(i1, i2).to_dense(), B[i1.squeeze(-1)][:, i2.squeeze(-1)], "direct", cls="index")
     ctx.close("index_kernel", ik.covar_matrix.to_dense(), B, "direct", cls="index:covar_matrix")
+    # diagonals: one index vector, and two different index vectors of equal length (B[i1[a], i3[a]])
+    i3 = torch.randint(0, t, (5, 1), generator=g)
+    with torch.no_grad():
+        for tag, a_, b_ in (("same", i1, i1), ("two_vectors", i1, i3)):
+            refd = B[a_.squeeze(-1), b_.squeeze(-1)]
+            dg = ik(a_, b_, diag=True)
+            ctx.close("index_kernel", dg.to_dense() if hasattr(dg, "to_dense") else dg, refd, "direct", cls="index:diag:" + tag)
+            ctx.close("index_kernel", ik(a_, b_).diagonal(dim1=-1, dim2=-2), refd, "direct", cls="index:lazy.diagonal:" + tag)
+        # through a product with a data kernel (the usual Hadamard multitask construction)
+        rbf = gpytorch.kernels.RBFKernel()
+        xa, xb = util.randn(g, 5, 2), util.randn(g, 5, 2)
+        with gpytorch.settings.lazily_evaluate_kernels(False):
+            Kab = rbf(xa, xb).to_dense()
+        za, zb = torch.cat([xa, i1.double()], -1), torch.cat([xb, i3.double()], -1)
+        had = gpytorch.kernels.ProductKernel(gpytorch.kernels.RBFKernel(active_dims=(0, 1)), gpytorch.kernels.IndexKernel(num_tasks=t, rank=case["rank"], active_dims=(2,)))
+        had.kernels[0].lengthscale = rbf.lengthscale.detach()
+        had.kernels[1].covar_factor.data.copy_(ik.covar_factor.detach())
+        had.kernels[1].raw_var.data.copy_(ik.raw_var.detach())
+        refh = Kab * B[i1.squeeze(-1)][:, i3.squeeze(-1)]
+        ctx.close("index_kernel", had(za, zb).to_dense(), refh, "direct", cls="index:hadamard")
+        dgh = had(za, zb, diag=True)
+        ctx.close("index_kernel", dgh.to_dense() if hasattr(dgh, "to_dense") else dgh, torch.diagonal(refh), "direct", cls="index:hadamard:diag:two_inputs")
+        ctx.close("index_kernel", had(za, zb).diagonal(dim1=-1, dim2=-2), torch.diagonal(refh), "direct", cls="index:hadamard:lazy.diagonal:two_inputs")
     # the dense formula of the CURRENT parameters: evaluation mode, another state loaded / assigned, evaluated again
     ik.eval()
     with torch.no_grad():
